@@ -40,6 +40,8 @@ type buildOpts struct {
 	neg, fwd bool
 	// per-stack hook (e.g. set options); called for every Stack built
 	each func(s stackage.Stack, path string)
+	// after is called once the stack's elements have been pushed
+	after func(s stackage.Stack, path string)
 }
 
 func (n node) buildStack(path string, o *buildOpts) stackage.Stack {
@@ -57,6 +59,9 @@ func (n node) buildStack(path string, o *buildOpts) stackage.Stack {
 	}
 	for i, k := range n.Kids {
 		s.Push(k.build(fmt.Sprintf("%s.%d", path, i), o))
+	}
+	if o != nil && o.after != nil {
+		o.after(s, path)
 	}
 	return s
 }
